@@ -959,7 +959,7 @@ func runC13c(sc C13cSc, c *kit.Case) *kit.Violation {
 
 func init() {
 	kit.Register("C13a",
-		"rapid: sequential histories of 2..30 puts and gets on one mutable target (salt length 0/3/64), through the wire (genuine token), through a second bep44.Wrapper over the same underlying store, and through Server.Put; seq from a dense range 0..6 and from {-1, MinInt64, MaxInt64, MaxInt64-1}; CAS absent / equal to the stored seq / other; 4 values; gets with and without a seq argument. Oracle: independent BEP 44 rule (lower seq, or equal seq with another value => 302; CAS present and != stored seq => 301; both apply => either; otherwise accepted), the stored version read back after every put, get serves exactly the stored version, with v iff no seq was named or stored seq > named seq, and what is served verifies. Non-trivial: the history contains an out-of-order seq and a CAS put.",
+		"rapid: sequential histories of 2..30 puts and gets on one mutable target (salt length 0/3/64), through the wire (genuine token), through a second bep44.Wrapper over the same underlying store, and through Server.Put; seq from a dense range 0..6, from {-1, -2, -7, MinInt64, MinInt64+1, MaxInt64, MaxInt64-1} and relative to the stored one; CAS absent / equal to the stored seq / other (negative ones included); 10 values of every bencode kind, among them strings whose bytes spell another value's encoding; gets with and without a seq argument (absolute, or one below / at / one above the stored seq); puts during which the backing store's read fails (refusing is sound; acknowledging only if the put was acceptable against what is really stored). Oracle: independent BEP 44 rule (lower seq, or equal seq with another value => 302; CAS present and != stored seq => 301; both apply => either; otherwise accepted), the stored version read back after every put, get serves exactly the stored version, with v iff no seq was named or stored seq > named seq, and what is served verifies. Non-trivial: the history contains an out-of-order seq and a CAS put.",
 		[]string{"cas=0 is 'absent' (the wire type cannot distinguish them)", "a same-seq same-value refresh with a mismatching CAS may be accepted or refused 301"},
 		genC13, runC13a)
 	kit.Register("C13b",
